@@ -15,7 +15,10 @@ def doc_history_alphabet(tier, with_values=None, rich=False):
     ops += [("ns", "D", "ex", "A"), ("ns", "D", "ex", "B"), ("ns", "D", "q", "A")]
     ops += [("def", "D", "A"), ("def", "D", "C")]
     ops += [("bun", "B1", ("A", "b1", S("ex"))), ("bun", "B1", ("A", "b1", BARE)),
-            ("bun", "B1", ("C", "b1", Q("bn")))]
+            ("bun", "B1", ("C", "b1", Q("bn"))),
+            # a bundle built on its own and attached with add_bundle(): its identifier's namespace is
+            # unknown to the document
+            ("addb", "B1", ("C", "b1", Q("zz")))]
     ops += [("ns", "B1", "ex", "A"), ("ns", "B1", "ex", "B"), ("ns", "B1", "q", "B")]
     ops += [("def", "B1", "B"), ("def", "B1", "A")]
     # elements, every spelling, both scopes
